@@ -6,6 +6,7 @@ use crate::gen;
 use crate::hashid::{HashId, ALL_HASHES};
 use crate::libapi::{self, Cb, Out, VERIFY_ENTRIES};
 use crate::refmodel::{hss, Model};
+use proptest::prelude::*;
 use serde::{Deserialize, Serialize};
 
 /// lib verdict through all three entry points vs. model verdict.
@@ -356,5 +357,18 @@ pub fn run(ctx: &Ctx) {
         }
         pass(format!("{}|w{}", c.hash.name(), c.w), true)
     });
+    // well-formed signatures whose chain values sit at NON-RFC positions (built from the private
+    // chain starts by the model): alternative checksum encodings, advanced chains, perturbations
+    ctx.random(
+        "non_rfc_chain_positions",
+        &|| {
+            (gen::hash_id(), 0usize..4, 0u8..super::c12::VERIFIER_VARIANTS, any::<u64>())
+                .prop_map(|(hash, wi, variant, tag)| super::c12::VerifierCase { hash, w: [1u32, 2, 4, 8][wi], variant, tag })
+                .boxed()
+        },
+        ctx.tier.pick(20_000u32, 200_000u32),
+        Opts::default(),
+        |c: &super::c12::VerifierCase| super::c12::check_verifier(ctx, c),
+    );
     let _ = (Mutation::None, Target::Sig);
 }
